@@ -310,6 +310,7 @@ class ScopeGen(object):
             if self.rng.random() < 0.15:
                 out.append(I + '# a comment between decorator and def')
         inner = Scope('func', sc)
+        self.no_walrus = getattr(self, 'no_walrus', 0) + 1      # F58: walrus in a default vs annotation order
         params = []
         call_args = []
         kinds = self.rng.sample(['pos', 'posd', 'arg', 'argd', 'var', 'kwo', 'kwod', 'kw'], self.rng.randint(0, 5))
@@ -366,6 +367,7 @@ class ScopeGen(object):
         if have_slash and '/' not in plist:
             plist.append('/')
         ret = (' -> %s' % self.expr(sc)) if self.rng.random() < 0.15 else ''
+        self.no_walrus -= 1
         is_async = False
         out.append(I + 'def %s(%s)%s:' % (name, ', '.join(plist), ret))
         body_ind = ind + '    '
